@@ -25,6 +25,7 @@ def run(tier, acc):
     n = 4 if tier == "quick" else 5
     cc.gen_and_replay(acc, "step_clean", n, "stepper", "clean", "C06")
     cc.gen_and_replay(acc, "step_head", 3 if tier == "quick" else 4, "stepper", "headform", "C06")
+    cc.drive_and_validate(acc, 3000 if tier == 'quick' else 60000, 'C06')
     acc.exhaustive = True
 
 
